@@ -215,6 +215,10 @@ func (g *genCtx) nextEvent(family string) sut.Event {
 		if g.chance(0.2) {
 			e.Redir = "redir"
 		}
+	case "Probe":
+		if g.chance(0.3) {
+			e.K = g.pick("alt1", "alt2", "alt3")
+		}
 	case "Logout":
 		e.Method = c.LogoutMethod
 		if g.chance(0.25) {
